@@ -214,6 +214,24 @@ pub fn draw_cfg(profile: &str, thorough: bool, rng: &mut Rng) -> RunCfg {
                 ],
             );
         }
+        "undo" => {
+            gen.subdoc_pct = 0;
+            gen.embed_pct = 0;
+            gen.rich_any = false;
+            cfg.w_special = rng.range(15, 30) as u32;
+            cfg.w_txn = 40;
+            pick_faults(
+                rng,
+                &mut [
+                    (&mut cfg.w_dup, 2, 10),
+                    (&mut cfg.w_drop, 2, 8),
+                    (&mut cfg.w_hold, 2, 8),
+                    (&mut cfg.w_sync, 3, 10),
+                    (&mut cfg.w_gc, 3, 10),
+                    (&mut cfg.w_partition, 1, 5),
+                ],
+            );
+        }
         "snap" => {
             // node 0 is the archivist (no GC); at least one other node collects garbage
             nodes[0].skip_gc = true;
@@ -358,7 +376,10 @@ impl World {
         let k = self.rng.weighted(&weights);
         let ev = match k {
             0 => {
-                let n = self.rng.idx(self.nodes.len());
+                let mut n = self.rng.idx(self.nodes.len());
+                if self.cfg.profile == "undo" && self.rng.chance(50) {
+                    n = 0; // the editor is the busiest replica
+                }
                 let count = self.rng.range(1, self.cfg.max_ops_per_txn as u64) as u32;
                 let origin = crate::monitors::draw_origin(self, n);
                 // generated and executed op by op
